@@ -300,16 +300,72 @@ End Oracles.
 
 (* ================================================================== the regenerated program as a whole *)
 (* one request operation / a sequence, executed by the functions REGENERATED from the source (Gen/Facts_C09.v) *)
-Definition gen_step (H : text -> list N -> text) (dsz : text -> nat) (uni : N -> N)
-           (c : cfg) (r : req) (st : state) (o : op) : state * out :=
-  match o with
-  | OIdentify => let '(st', res) := gen_identify H dsz uni c r st in (st', OutId res)
-  | ORemember u ma toks => let '(st', h) := gen_remember H c r st u ma toks in (st', OutHdr h)
-  | OForget => let '(st', h) := gen_forget c r st in (st', OutHdr h)
+(* operations as the caller writes them: remember() may be handed an object of any type *)
+Inductive gop := GIdentify | GRemember (a : uarg) (ma : option Z) (toks : list text) | GForget.
+Definition op_of (g : gop) : op :=
+  match g with
+  | GIdentify => OIdentify
+  | GRemember a ma toks => ORemember (uarg_val a) ma toks
+  | GForget => OForget
   end.
 
+Definition gen_step (H : text -> list N -> text) (dsz : text -> nat) (uni : N -> N)
+           (c : cfg) (r : req) (st : state) (o : gop) : state * out :=
+  match o with
+  | GIdentify => let '(st', res) := gen_identify H dsz uni c r st in (st', OutId res)
+  | GRemember u ma toks => let '(st', h) := gen_remember H c r st u ma toks in (st', OutHdr h)
+  | GForget => let '(st', h) := gen_forget c r st in (st', OutHdr h)
+  end.
+
+(* the same operations through AuthTktAuthenticationPolicy (remember / forget are the policy's methods; identify is
+   policy.cookie.identify) *)
+Definition gen_pstep (H : text -> list N -> text) (dsz : text -> nat) (uni : N -> N)
+           (c : cfg) (r : req) (st : state) (o : gop) : state * out :=
+  match o with
+  | GIdentify => let '(st', res) := gen_identify H dsz uni c r st in (st', OutId res)
+  | GRemember u ma toks => let '(st', h) := gen_policy_remember H c r st u ma toks in (st', OutHdr h)
+  | GForget => let '(st', h) := gen_policy_forget c r st in (st', OutHdr h)
+  end.
+
+(* ---- construction: the configuration a helper ends up with, given the constructor arguments *)
+(* the documented signature orders (helper: ..., http_only, path, wild_domain, hashalg, parent_domain, domain, samesite;
+   policy: ..., path, http_only, ...) *)
+Definition helper_cfg (s n : text) (se ii : bool) (to ri ma : option Z) (ho : bool) (pa : text) (wd : bool) (al : text)
+           (pd : bool) (dm ss : option text) : cfg := mkCfg s n se ii to ri ma ho pa wd pd dm al ss.
+Definition profile_of (c : cfg) : ck :=
+  mkCk (cookie_name c) None None (max_age c) (path c) (secure c) (http_only c) (samesite c).
+(* the documented defaults *)
+Definition default_cfg (s : text) : cfg :=
+  mkCfg s [97; 117; 116; 104; 95; 116; 107; 116] false false None None None false [47] true false None
+        [115; 104; 97; 53; 49; 50] (Some [76; 97; 120]).
+
+Definition helper_args (c : cfg) : cfg * ck :=
+  gen_helper_init (secret c) (cookie_name c) (secure c) (include_ip c) (timeout c) (reissue_time c) (max_age c)
+                  (http_only c) (path c) (wild_domain c) (hashalg c) (parent_domain c) (domain c) (samesite c).
+Definition policy_args (c : cfg) : cfg * ck :=
+  gen_policy_init (secret c) (cookie_name c) (secure c) (include_ip c) (timeout c) (reissue_time c) (max_age c)
+                  (path c) (http_only c) (wild_domain c) (hashalg c) (parent_domain c) (domain c) (samesite c).
+(* keyword arguments the caller OMITS (mask over the 13 fields after the secret) take the value [d] *)
+Definition pick (m : list bool) (c d : cfg) : cfg :=
+  match m with
+  | [m1; m2; m3; m4; m5; m6; m7; m8; m9; m10; m11; m12; m13] =>
+      mkCfg (secret c) (if m1 then cookie_name d else cookie_name c) (if m2 then secure d else secure c)
+            (if m3 then include_ip d else include_ip c) (if m4 then timeout d else timeout c)
+            (if m5 then reissue_time d else reissue_time c) (if m6 then max_age d else max_age c)
+            (if m7 then http_only d else http_only c) (if m8 then path d else path c)
+            (if m9 then wild_domain d else wild_domain c) (if m10 then parent_domain d else parent_domain c)
+            (if m11 then domain d else domain c) (if m12 then hashalg d else hashalg c)
+            (if m13 then samesite d else samesite c)
+  | _ => c
+  end.
+(* what AuthTktCookieHelper(secret, **given) / AuthTktAuthenticationPolicy(secret, **given).cookie is configured as,
+   computed by the REGENERATED constructors and their regenerated defaults *)
+Definition construct (pol : bool) (omit : list bool) (c : cfg) : cfg :=
+  if pol then fst (policy_args (pick omit c (fst (gen_policy_defaults (secret c)))))
+  else fst (helper_args (pick omit c (fst (gen_helper_defaults (secret c))))).
+
 Fixpoint gen_run_ops (H : text -> list N -> text) (dsz : text -> nat) (uni : N -> N)
-         (c : cfg) (r : req) (st : state) (ops : list op) : state * list out :=
+         (c : cfg) (r : req) (st : state) (ops : list gop) : state * list out :=
   match ops with
   | [] => (st, [])
   | o :: rest => let '(st1, x) := gen_step H dsz uni c r st o in
@@ -328,14 +384,16 @@ Fixpoint run_ops2 (H : text -> list N -> text) (dsz : text -> nat) (uni : N -> N
       let '(st2, xs) := run_ops2 H dsz uni c0 r0 c1 r1 st1 rest in (st2, x :: xs)
   end.
 
-Fixpoint gen_run_ops2 (H : text -> list N -> text) (dsz : text -> nat) (uni : N -> N)
-         (c0 : cfg) (r0 : req) (c1 : cfg) (r1 : req) (st : state) (ops : list (bool * op)) : state * list out :=
+Fixpoint gen_run_ops2 (H : text -> list N -> text) (dsz : text -> nat) (uni : N -> N) (pol : bool)
+         (c0 : cfg) (r0 : req) (c1 : cfg) (r1 : req) (st : state) (ops : list (bool * gop)) : state * list out :=
   match ops with
   | [] => (st, [])
   | (b, o) :: rest =>
-      let '(st1, x) := if b then gen_step H dsz uni c1 r1 st o else gen_step H dsz uni c0 r0 st o in
-      let '(st2, xs) := gen_run_ops2 H dsz uni c0 r0 c1 r1 st1 rest in (st2, x :: xs)
+      let '(st1, x) := if b then gen_step H dsz uni c1 r1 st o
+                       else if pol then gen_pstep H dsz uni c0 r0 st o else gen_step H dsz uni c0 r0 st o in
+      let '(st2, xs) := gen_run_ops2 H dsz uni pol c0 r0 c1 r1 st1 rest in (st2, x :: xs)
   end.
+Definition op2_of (bo : bool * gop) : bool * op := (fst bo, op_of (snd bo)).
 
 (* ================================================================== wire glue *)
 Definition lookup_H (tbl : list (text * list N * text)) (alg : text) (msg : list N) : text :=
@@ -381,19 +439,26 @@ Definition get_uval (v : val) : option uval :=
   | _ => None
   end.
 
-(* 0 1 2: identify / remember / forget on the first helper; 3 4 5: the same on the second helper *)
-Definition get_op (v : val) : option (bool * op) :=
+(* a remember() argument: [0|1|2; text] a str / int / bytes, [3; text] an object of another type with that str() *)
+Definition get_uarg (v : val) : option uarg :=
   match v with
-  | VL [VI 0%Z] => Some (false, OIdentify)
+  | VL [VI 3%Z; VT t] => Some (UOther t)
+  | _ => option_map UKnown (get_uval v)
+  end.
+
+(* 0 1 2: identify / remember / forget on the first helper; 3 4 5: the same on the second helper *)
+Definition get_op (v : val) : option (bool * gop) :=
+  match v with
+  | VL [VI 0%Z] => Some (false, GIdentify)
   | VL [VI 1%Z; u; ma; toks] =>
-      olet u := get_uval u in olet ma := get_optZ ma in olet toks := get_texts toks in
-      Some (false, ORemember u ma toks)
-  | VL [VI 2%Z] => Some (false, OForget)
-  | VL [VI 3%Z] => Some (true, OIdentify)
+      olet u := get_uarg u in olet ma := get_optZ ma in olet toks := get_texts toks in
+      Some (false, GRemember u ma toks)
+  | VL [VI 2%Z] => Some (false, GForget)
+  | VL [VI 3%Z] => Some (true, GIdentify)
   | VL [VI 4%Z; u; ma; toks] =>
-      olet u := get_uval u in olet ma := get_optZ ma in olet toks := get_texts toks in
-      Some (true, ORemember u ma toks)
-  | VL [VI 5%Z] => Some (true, OForget)
+      olet u := get_uarg u in olet ma := get_optZ ma in olet toks := get_texts toks in
+      Some (true, GRemember u ma toks)
+  | VL [VI 5%Z] => Some (true, GForget)
   | _ => None
   end.
 
@@ -414,6 +479,8 @@ Definition put_idres (r : idres) : val :=
 Definition put_ck (k : ck) : val :=
   VL [VT (ck_name k); put_optT (ck_value k); put_optT (ck_domain k); put_optZ (ck_max_age k);
       VT (ck_path k); vbool (ck_secure k); vbool (ck_httponly k); put_optT (ck_samesite k)].
+Definition put_ures (x : ures) : val :=
+  match x with UNone => VL [VI 0] | USome u => VL [VI 1; put_uval u] | URaise => VL [VI 2] end.
 Definition put_out (o : out) : val :=
   match o with
   | OutId r => VL [VI 0; put_idres r]
@@ -471,13 +538,17 @@ Definition origin_cookie (Hf : text -> list N -> text) (o : origin) : option tex
   | None => None
   end.
 
-(* case = [cfg; req; ops; origin?; [dsz table; H table; uni table]]
+(* case = [cfg; req; ops; origin?; [dsz table; H table; uni table]; second helper; [through the policy?; omitted keywords]]
    answer = [answers of the REGENERATED program; spec; missing oracle queries] *)
 Definition run_C09 (v : val) : val :=
   ret_or_bad (
     match v with
-    | VL [c; r; ops; org; VL [dt; ht; ut]; second] =>
-        olet c := get_cfg c in olet r := get_req r in olet ops := get_list_of get_op ops in
+    | VL [c; r; ops; org; VL [dt; ht; ut]; second; VL [pol; omit]] =>
+        olet cspec := get_cfg c in olet r := get_req r in olet ops := get_list_of get_op ops in
+        olet pol := get_bool pol in olet omit := get_list_of get_bool omit in
+        (* the model runs with the configuration the REGENERATED constructor computes from the arguments given
+           (omitted keywords -> the source's defaults); the spec below speaks about the arguments themselves *)
+        let c := construct pol omit cspec in
         (* second helper: [] (none: it is the first one again) or [cfg; its cookie] *)
         olet snd_h := match second with
                       | VL [] => Some (c, r)
@@ -489,38 +560,46 @@ Definition run_C09 (v : val) : val :=
         olet dt := get_list_of get_drow dt in olet ht := get_list_of get_Hrow ht in
         olet ut := get_list_of get_urow ut in
         let Hf := lookup_H ht in let dz := lookup_dsz dt in let ur := lookup_uni ut in
-        let '(st, outs) := gen_run_ops2 Hf dz ur c r c1 r1 st0 ops in
+        let '(st, outs0) := gen_run_ops2 Hf dz ur pol c r c1 r1 st0 ops in
+        (* through the policy: policy.unauthenticated_userid on a fresh request (constant clock) is a last observation *)
+        let outs_p := if pol then [VL [VI 3; put_ures (snd (gen_policy_userid Hf dz ur c (no_tick r) st0))]] else [] in
+        let outs := outs0 in
         let resp := response_cookies st in
         let fed := flat_map out_values outs ++ values_of resp in
         let fb := map (fun v => snd (gen_identify Hf dz ur (no_reissue c) (with_cookie (no_tick r) v) st0)) fed in
         let oc := match org with Some o => origin_cookie Hf o | None => None end in
-        (* ---- spec side *)
-        let ck0 := match cookie r with Some x => x | None => [] end in
-        let dok := match cookie r with Some x => digest_ok Hf dz ur c r x | None => false end in
+        (* ---- spec side: about the configuration the caller asked for ([cs]), not the constructed one *)
+        let cs := cspec in
+        let dok := match cookie r with Some x => digest_ok Hf dz ur cs r x | None => false end in
         let dok1 := match cookie r1 with Some x => digest_ok Hf dz ur c1 r1 x | None => false end in
-        let compat := match org, eff_ip c r with
-                      | Some o, Some ip => text_eqb (o_secret o) (secret c) && text_eqb (o_alg o) (hashalg c)
+        let compat := match org, eff_ip cs r with
+                      | Some o, Some ip => text_eqb (o_secret o) (secret cs) && text_eqb (o_alg o) (hashalg cs)
                                            && ip_eqb (o_ip o) ip
                       | _, _ => false
                       end in
         let same := match oc, cookie r with Some a, Some b => text_eqb a b | _, _ => false end in
         let expect := match org with
                       | Some o => if compat && same && (o_t0 o <? 4294967296)
-                                  then VL [VI 1; match spec_issued_identity c (o_t0 o) (o_u o) (o_toks o) (now2 r) with
+                                  then VL [VI 1; match spec_issued_identity cs (o_t0 o) (o_u o) (o_toks o) (now2 r) with
                                                  | Some (ts, u, toks) => VL [VI ts; put_uval u; vtexts toks]
                                                  | None => VL []
                                                  end]
                                   else VL [VI 0]
                       | None => VL [VI 0]
                       end in
-        let spec := VL [VL [vbool dok; vbool dok1]; expect; vlist put_ck (spec_response Hf dz ur c r (map snd ops));
-                        VL [VT (cookie_name c); put_optT (spec_domain c r); VT (path c); vbool (secure c);
-                            vbool (http_only c); put_optT (samesite c); put_optZ (max_age c)]] in
-        (* ---- oracle queries of this run *)
-        let msgs := flat_map (fun bo : bool * op => if fst bo then [] else msgs_op Hf dz ur c r (snd bo)) ops
-                    ++ flat_map (fun v => msgs_identify dz ur (no_reissue c) (with_cookie (no_tick r) v)) fed in
-        let msgs1 := flat_map (fun bo : bool * op => if fst bo then msgs_op Hf dz ur c1 r1 (snd bo) else []) ops in
-        let qs := flat_map (queries_of Hf (hashalg c) (secret c)) msgs
+        let sops := map (fun bo : bool * gop => op_of (snd bo)) ops in
+        let spec := VL [VL [vbool dok; vbool dok1]; expect; vlist put_ck (spec_response Hf dz ur cs r sops);
+                        VL [VT (cookie_name cs); put_optT (spec_domain cs r); VT (path cs); vbool (secure cs);
+                            vbool (http_only cs); put_optT (samesite cs); put_optZ (max_age cs)]] in
+        (* ---- oracle queries of this run (for the constructed configuration and for the one the spec speaks about) *)
+        let msgs_for := fun cc : cfg =>
+              flat_map (fun bo : bool * gop => if fst bo then [] else msgs_op Hf dz ur cc r (op_of (snd bo))) ops
+              ++ flat_map (fun v => msgs_identify dz ur (no_reissue cc) (with_cookie (no_tick r) v)) fed
+              ++ (if pol then msgs_op Hf dz ur cc (no_tick r) OIdentify else [])
+              ++ msgs_identify dz ur cc r in
+        let msgs1 := flat_map (fun bo : bool * gop => if fst bo then msgs_op Hf dz ur c1 r1 (op_of (snd bo)) else []) ops in
+        let qs := flat_map (queries_of Hf (hashalg c) (secret c)) (msgs_for c)
+                  ++ flat_map (queries_of Hf (hashalg cs) (secret cs)) (msgs_for cs)
                   ++ flat_map (queries_of Hf (hashalg c1) (secret c1)) msgs1
                   ++ match org with
                      | Some o => match encode_userid (o_u o) with
@@ -533,7 +612,7 @@ Definition run_C09 (v : val) : val :=
                      | None => []
                      end in
         let missing := filter (fun q => negb (has_H ht (fst q) (snd q))) qs in
-        Some (VL [VL [put_optT oc; vlist put_out outs; vlist put_ck resp; vlist put_idres fb];
+        Some (VL [VL [put_optT oc; VL (map put_out outs ++ outs_p); vlist put_ck resp; vlist put_idres fb];
                   spec;
                   vlist (fun q => VL [VT (fst q); VT (snd q)]) missing])
     | _ => None
